@@ -336,3 +336,76 @@ func TestRegressRateLimitPerProcedure(t *testing.T) {
 		}
 	}
 }
+
+// TestRegressConcurrentResetTicks: concurrent traffic around the reset ticks of the rate limiter (conc_test.go), fixed
+// scripts. Node V (short rate-limit interval) is used by innocent peers that send 60-100 % of every procedure's limit in
+// EVERY counter window while an offender exceeds one procedure's limit right before every tick, so that
+// rateLimit.checkLimit holds the lock of that counter (it is kept there across the tick through V's logger, which
+// checkLimit calls with the lock held). The reset has to wait for the lock and then clear the counter: no innocent peer
+// may ever get a score. (A reset that skips a counter it finds locked adds the messages of two windows: the steady peers
+// are penalised in the window after the tick.)
+func TestRegressConcurrentResetTicks(t *testing.T) {
+	order := []byte{3, 1, 4, 1, 5, 9, 2, 6, 5, 3, 5, 8, 9, 7, 9, 3}
+	plan := func(phase string, pct ...int) cplan { return cplan{Pct: pct, Phase: phase, Order: order} }
+	rep := func(n int, p ...cplan) []cplan {
+		var out []cplan
+		for i := 0; i < n; i++ {
+			out = append(out, p[i%len(p)])
+		}
+		return out
+	}
+	hold := func(proc, off, lead, extra int) ctick { return ctick{Mode: "hold", Proc: proc, Off: off, LeadMs: lead, ExtraMs: extra} }
+	free := func(proc, off, leadUs int, twin bool) ctick { return ctick{Mode: "free", Proc: proc, Off: off, LeadUs: leadUs, Twin: twin} }
+	a := escn{On: true, Conc: true, N: 6, IPs: []int{2, 3, 4, 5, 6, 7}, Security: p2p.ConnectionSecurityNone, ExpiryS: 2, SweepMs: 100,
+		Limit: 6, Penalty: 50, PL: []int{6, 5, 8}, PP: []int{50, 50, 34}, RateMs: 500, BlackOf: -1, DialOnly: -1}
+	a.CC = cconf{NInn: 2, NOff: 2,
+		Ticks: []ctick{hold(0, 0, 30, 50), hold(0, 1, 20, 40), hold(1, 0, 40, 60), hold(2, 1, 10, 30), hold(0, 0, 25, 50)},
+		Plans: [][]cplan{rep(6, plan("early", 75, 100, 75), plan("spread", 100, 80, 60)), rep(6, plan("early", 100, 60, 100), plan("late", 60, 100, 75), plan("straddle", 75, 75, 75))}}
+	b := escn{On: true, Conc: true, N: 8, IPs: []int{9, 8, 7, 6, 5, 4, 3, 2}, Security: p2p.ConnectionSecurityNoise, ExpiryS: 1, SweepMs: 50,
+		Limit: 4, Penalty: 100, PL: []int{4, 10, 7}, PP: []int{100, 100, 25}, RateMs: 300, BlackOf: -1, DialOnly: -1}
+	b.CC = cconf{NInn: 3, NOff: 3,
+		Ticks: []ctick{hold(1, 0, 15, 30), hold(0, 1, 35, 45), free(2, 2, 800, false), hold(2, 2, 20, 40), hold(2, 2, 45, 25), hold(2, 2, 8, 70)},
+		Plans: [][]cplan{rep(7, plan("early", 100, 70, 75)), rep(7, plan("spread", 75, 100, 90), plan("early", 75, 60, 60)), rep(7, plan("straddle", 50, 50, 50), plan("late", 100, 90, 60))}}
+	f := escn{On: true, Conc: true, N: 7, IPs: []int{4, 9, 2, 7, 3, 8, 5}, Security: p2p.ConnectionSecurityTLS, ExpiryS: 2, SweepMs: 200,
+		Limit: 5, Penalty: 100, PL: []int{5, 5, 5}, PP: []int{100, 100, 100}, RateMs: 400, BlackOf: -1, DialOnly: -1}
+	f.CC = cconf{NInn: 2, NOff: 3,
+		Ticks: []ctick{free(0, 0, 600, true), free(1, 2, 1200, false), free(2, 1, 300, false), {Mode: "none"}, {Mode: "none"}},
+		Plans: [][]cplan{rep(6, plan("early", 80, 80, 80), plan("spread", 100, 100, 100)), rep(6, plan("late", 100, 60, 80), plan("straddle", 60, 60, 60))}}
+	type script struct {
+		name string
+		s    escn
+	}
+	scripts := []script{
+		{"5 ticks, checkLimit held across each, interval 500 ms", a},
+		{"6 ticks, bans (penalty 100) right before the ticks, interval 300 ms", b},
+		{"offenders banned at the estimated tick without any hold, interval 400 ms", f},
+	}
+	results := make([]*seqResult, len(scripts))
+	var wg sync.WaitGroup
+	for i, sc := range scripts {
+		wg.Add(1)
+		go func(i int, s escn) {
+			defer wg.Done()
+			results[i] = runScenarioRobust(s)
+		}(i, sc.s)
+	}
+	wg.Wait()
+	for i, sc := range scripts {
+		res := results[i]
+		switch {
+		case res.violation != "":
+			t.Errorf("C18 violated (concurrent traffic around reset ticks, %s; 3 attempts): %s\nhistory:\n%s", sc.name, res.violation, res.render())
+		case res.infra != "":
+			evid.R.Inconclusive("concurrent-reset regression scenario %q dropped: %s", sc.name, res.infra)
+		default:
+			if i < 2 && res.counts["conc:tick-while-counter-lock-held:deliberate-hold,confirmed"]+res.counts["conc:tick-while-counter-lock-held:deliberate-hold,probable"] == 0 {
+				evid.R.Note("concurrent-reset regression script %q: no reset tick fell into a held checkLimit (slow run, or the log line of checkLimit changed)", sc.name)
+			}
+			register("e2e-concurrent-reset-regress", res)
+			registerCounts(res)
+			if os.Getenv("VERIF_C18_SHOW") != "" {
+				t.Logf("%s (non-trivial=%v):\n%s", sc.name, res.nontrivial, res.render())
+			}
+		}
+	}
+}
